@@ -2,4 +2,5 @@ import TinyFlux.Audit.Tool
 import TinyFlux.Props.C03
 import TinyFlux.Props.C03State
 import TinyFlux.Props.C03Witness
+import TinyFlux.Props.C03Mirror
 #audit TinyFlux.Props.C03
